@@ -1,16 +1,19 @@
 #!/bin/bash
-# usage: confirm_seed.sh <worktree> <demo test name (tests/<name>.rs)>
-# Confirms in the scratch worktree: with the patch the pinned suite passes and the demo fails; without it the demo passes.
+# usage: confirm_seed.sh <worktree> <demo test name (tests/<name>.rs)> [extra cargo test args after --]
+# Confirms in the scratch worktree (private target dir, sequential): with the patch the pinned suite passes and
+# the demo fails; without it the demo passes.
 set -u
-WT="$1"; DEMO="$2"
+WT="$1"; DEMO="$2"; shift 2
+export CARGO_TARGET_DIR=/tmp/confirm_target
 cd "$WT" || exit 2
+t() { find src tests -name '*.rs' -exec touch {} +; }
 echo "== with patch: pinned suite (demo moved aside)"
-mkdir -p /tmp/demo_aside_$$ && mv tests/$DEMO.rs /tmp/demo_aside_$$/ 
-cargo test --workspace --offline 2>&1 | grep -E "^test result: .* [0-9]+ passed" | head -1
+mkdir -p /tmp/demo_aside_$$ && mv tests/$DEMO.rs /tmp/demo_aside_$$/
+t; cargo test --workspace --offline 2>&1 | grep -E "^test result: .* [0-9]+ passed" | head -1
 mv /tmp/demo_aside_$$/$DEMO.rs tests/
 echo "== with patch: demo"
-cargo test --offline --test $DEMO 2>&1 | grep -E "^test result|^test .* (FAILED|ok)" | head -12
+t; cargo test --offline --test $DEMO -- "$@" 2>&1 | grep -E "^test result|^test .* (FAILED|ok)" | head -12
 echo "== without patch: demo"
-git apply -R SEED/patch.diff && cargo test --offline --test $DEMO 2>&1 | grep -E "^test result" | head -3
+git apply -R SEED/patch.diff && t && cargo test --offline --test $DEMO -- "$@" 2>&1 | grep -E "^test result" | head -3
 git apply SEED/patch.diff
 rmdir /tmp/demo_aside_$$ 2>/dev/null
